@@ -5,7 +5,7 @@ import os
 import shutil
 import tempfile
 
-from mc import core, impl, clidrv
+from mc import subchunk, core, impl, clidrv
 from mc.core import ChunkResult
 from mc.ref import cheader, ilog as rilog
 
@@ -100,6 +100,8 @@ def plan(tier, seed):
         ch.append({'k': 'table', 'type': t})
         for part in range(8):
             ch.append({'k': 'shipped', 'type': t, 'part': part, 'parts': 8, 'fills': '05F' if tier == 'quick' else '01459AF'})
+    # the same under python -O (assertions stripped, __debug__ false)
+    ch += [dict(c, optimize=True) for c in [{'k': 'syn', 'first': None}, {'k': 'syn', 'first': 0, 'maxlen': 2}, {'k': 'rewrite'}, {'k': 'table', 'type': 'mex'}]]
     return ch
 
 
@@ -266,6 +268,9 @@ def fills_for(pattern, fills):
 
 
 def run_chunk(chunk):
+    routed = subchunk.route(__name__, chunk)
+    if routed is not None:
+        return routed
     res = ChunkResult()
     impl.ensure(False)
     k = chunk['k']
